@@ -24,6 +24,9 @@ CHECKS = {
  "C05": ("exhaustive enumeration of trailing-positional configurations x spelled prefixes x tail prefix tree over hostile token shapes, differential oracle against the prefix-alone parse",
          "Every trailing-positional configuration (0../1.. x plain/last x with/without a leading positional x String/OsString x <=2 of 14 surrounding features) x 11 prefixes x every tail in T^<=2 (quick) / T^<=3 (thorough), T = 17 token shapes (help/version requests, flags, option spellings, subcommand names and prefixes, `--`, empty, `-`, delimiter, non-UTF-8). `prefix -- tail` must deliver the tail byte-for-byte to the positionals, dispatch no subcommand, produce no help/version request, and leave flags/options as in the parse of the prefix alone. Exhaustive within these bounds.",
          "Trusted: the construction of the expected positional values from prefix and tail (checks/src/bin/c05.rs). Configurations whose positional turns `--` into a value by documentation (allow_hyphen_values / trailing_var_arg already collecting) only get prefixes that leave it untouched.", "DESIGN.md §4 C05"),
+ "C07": ("exhaustive enumeration of (argument shape x self-override mode x override relation) x all occurrence sequences up to a length bound, plus every repeat count 0..300, against a fold-by-action reference model",
+         "7 shapes of the argument under test (Set/Append option, Count/SetTrue/SetFalse flag, Set/Append multi-value positional) x 3 self-override modes x 8 override relations among three arguments (incl. two overriders of one target) x every sequence of <=4 (quick) / <=6 (thorough) occurrences over {x(v1), x(v2), y, z}; Count additionally for every n in 0..=300, spelled as separate tokens and as one cluster, with a foreign flag at start/middle/end. Typed results (get_one/get_occurrences/get_count/get_flag, value_source) and ArgumentConflict rejections must equal the fold-by-action reference in both directions.",
+         "Trusted: the fold reference in checks/src/bin/c07.rs (override acts in both directions at each occurrence; removal restarts a count). Append combined with an explicit overrides_with(self) is not enumerated (pinned by neither property nor documentation).", "DESIGN.md §4 C07"),
 }
 PENDING_REASON = "check not built yet in this round (design in DESIGN.md §4); will be claimed when its checker exists"
 props = [json.loads(l) for l in open('/verif/properties.jsonl')]
